@@ -26,29 +26,16 @@ Proof.
   destruct (find_field tbl index) as [[sl decf]|] eqn:Ef.
   - destruct (find_field_In _ _ _ _ Ef) as [i Hin].
     assert (Hdec : dsafe d decf) by (rewrite Forall_forall in Htbl; apply (Htbl _ Hin)).
-    destruct (wt =? WTLength).
-    + destruct (read_varuint rest1) as [l k] eqn:Ev.
-      pose proof (read_varuint_n _ _ _ Ev) as Hk.
-      destruct (k <=? 0)%Z eqn:Hk0; [exact I|]. apply Z.leb_gt in Hk0.
-      destruct (go_drop_good "StructCodec.Read data[offset:]" (Z.to_N k) rest1 ltac:(llia)) as (rest2 & E2 & L2 & LL2).
-      rewrite E2. cbn [bind].
-      destruct (len rest2 <? l) eqn:Hl; [exact I|]. apply N.ltb_ge in Hl.
-      destruct (go_take_good "StructCodec.Read data[offset:fl]" l rest2 Hl) as (fdata & E3 & L3 & LL3).
-      rewrite E3. cbn [bind].
-      assert (Hfd : (length fdata < d)%nat) by (unfold len in *; llia).
-      specialize (Hdec fdata wt (slot cur sl) Hfd).
-      destruct (decf fdata wt (slot cur sl)) as [[fv used]| | | |]; cbn [good bind] in *; try contradiction; [|exact I].
-      destruct (go_drop_good "StructCodec.Read data[offset:]" used rest2 ltac:(llia)) as (rest3 & E4 & L4 & LL4).
-      rewrite E4. cbn [bind].
-      specialize (IH rest3 (consumed + Z.to_N n + Z.to_N k + used) (set_nth sl fv cur) ltac:(llia) ltac:(llia)).
-      destruct (struct_loop tbl f rest3 _ _) as [[vs m]| | | |]; auto. llia.
-    + assert (Hfd : (length rest1 < d)%nat) by llia.
-      specialize (Hdec rest1 wt (slot cur sl) Hfd).
-      destruct (decf rest1 wt (slot cur sl)) as [[fv used]| | | |]; cbn [good bind] in *; try contradiction; [|exact I].
-      destruct (go_drop_good "StructCodec.Read data[offset:]" used rest1 ltac:(llia)) as (rest3 & E4 & L4 & LL4).
-      rewrite E4. cbn [bind].
-      specialize (IH rest3 (consumed + Z.to_N n + used) (set_nth sl fv cur) ltac:(llia) ltac:(llia)).
-      destruct (struct_loop tbl f rest3 _ _) as [[vs m]| | | |]; auto. llia.
+    pose proof (read_field_data_safe "StructCodec.Read data[offset:fl]" wt rest1) as Hfd0.
+    destruct (read_field_data "StructCodec.Read data[offset:fl]" wt rest1) as [[[fdata rest2] k]| | | |]; cbn [bind] in *; try contradiction; [|exact I].
+    destruct Hfd0 as (Hk & L2 & L3 & LL3 & LL2).
+    assert (Hfd : (length fdata < d)%nat) by llia.
+    specialize (Hdec fdata wt (slot cur sl) Hfd).
+    destruct (decf fdata wt (slot cur sl)) as [[fv used]| | | |]; cbn [good bind] in *; try contradiction; [|exact I].
+    destruct (go_drop_good "StructCodec.Read data[offset:]" used rest2 ltac:(llia)) as (rest3 & E4 & L4 & LL4).
+    rewrite E4. cbn [bind].
+    specialize (IH rest3 (consumed + Z.to_N n + k + used) (set_nth sl fv cur) ltac:(llia) ltac:(llia)).
+    destruct (struct_loop tbl f rest3 _ _) as [[vs m]| | | |]; auto. llia.
   - pose proof (skip_total rest1 wt) as T. pose proof (skip_bounded rest1 wt) as B.
     destruct (skip rest1 wt) as [k| | | |]; cbn [bind is_ok_or_err] in *; try contradiction; [|exact I].
     specialize (B k eq_refl).
@@ -181,16 +168,9 @@ Proof.
   destruct (n <=? 0)%Z eqn:Hn0; [exact I|]. apply Z.leb_gt in Hn0.
   destruct (go_drop_good "MapCodec.readTagAndLength data[offset:]" (Z.to_N n) rest ltac:(llia)) as (rest1 & E1 & L1 & LL1).
   rewrite E1. cbn [bind].
-  destruct (wt =? WTLength).
-  - destruct (read_varuint rest1) as [l k] eqn:Ev.
-    pose proof (read_varuint_n _ _ _ Ev) as Hk.
-    destruct (k <=? 0)%Z eqn:Hk0; [exact I|]. apply Z.leb_gt in Hk0.
-    destruct (go_drop_good "MapCodec.readTagAndLength data[offset:]" (Z.to_N k) rest1 ltac:(llia)) as (rest2 & E2 & L2 & LL2).
-    rewrite E2. cbn [bind].
-    destruct (len rest2 <? l) eqn:Hl; [exact I|]. apply N.ltb_ge in Hl.
-    destruct (go_take_good "MapCodec.readMapEntry data[offset:fieldEnd]" l rest2 Hl) as (fdata & E3 & L3 & LL3).
-    rewrite E3. cbn [bind]. unfold len in *. repeat split; llia.
-  - unfold len in *. repeat split; llia.
+  pose proof (read_field_data_safe "MapCodec.readTagAndLength data[offset:fieldEnd]" wt rest1) as Hfd0.
+  destruct (read_field_data "MapCodec.readTagAndLength data[offset:fieldEnd]" wt rest1) as [[[fdata rest2] k]| | | |]; cbn [bind] in *; try contradiction; [|exact I].
+  destruct Hfd0 as (Hk & L2 & L3 & LL3 & LL2). repeat split; llia.
 Qed.
 
 Lemma read_map_entry_safe kdec vdec d kz vz :
